@@ -227,7 +227,16 @@ func (v *PacketDslVisitorImpl) VisitFieldDefinitionWithAttribute(ctx *gen.FieldD
 			}
 			// the attribute object may be shared with a MetaData entry (and so with
 			// other fields of that type): attach the padding to a copy
-			fixed := *f.Attr.(*model.FixedStringFieldAttribute)
+			fs, ok := f.Attr.(*model.FixedStringFieldAttribute)
+			if !ok {
+				v.BinModel.AddSyntaxError(&model.SyntaxError{
+					Line:   ctx.GetStart().GetLine(),
+					Column: ctx.GetStart().GetTokenSource().GetCharPositionInLine(),
+					Msg:    "Padding attribute is only allowed on char[n]/zchar[n] fields: " + f.Name,
+				})
+				continue
+			}
+			fixed := *fs
 			fixed.Padding = &model.Padding{
 				PadChar: padChar,
 				PadLeft: strings.Contains(fieldAttr.PaddingAttribute().PADDING_ATTR().GetText(), "left"),
